@@ -240,3 +240,76 @@ extern "C" void h_default_plain()
     s.nDis = 1; s.disabled[0] = IDX_PLAIN;
     checkChoice(s, mech);
 }
+
+#ifdef VP_DEBUG_ENTRIES
+extern "C" void h_dbg3()
+{
+    Sym s; makeSym(s);
+    QXmppConfiguration config;
+    applyConfig(config, s, false);
+    auto d = config.disabledSaslMechanisms();
+    int c = 0; for (const auto &x : d) c++;
+    vp_assert(c == 2, "C05 dbg");
+}
+extern "C" void h_dbg4()
+{
+    Sym s; makeSym(s);
+    QList<QString> d;
+    for (unsigned k = 0; k < VP_NDIS; k++)
+        if (k < s.nDis) d.append(nameOf(VP_NOFF + k, s.disabled[k]));
+    int c = 0; for (const auto &x : d) c++;
+    vp_assert(c == 2, "C05 dbg");
+}
+extern "C" void h_dbg5()
+{
+    QList<QString> d;
+    for (unsigned k = 0; k < VP_NDIS; k++)
+        d.append(nameOf(VP_NOFF + k, 3));
+    int c = 0; for (const auto &x : d) c++;
+    vp_assert(c == 2, "C05 dbg");
+}
+extern "C" void h_dbg6()
+{
+    Sym s; makeSym(s);
+    QXmppConfiguration config;
+    applyConfig(config, s, false);
+    QList<QString> off;
+    for (unsigned k = 0; k < VP_NOFF; k++)
+        if (k < s.nOff) off.append(nameOf(k, s.offered[k]));
+    const auto disabled = config.disabledSaslMechanisms();
+    bool r = disabled.contains(off.at(0));
+    vp_assert(r == (s.offered[0] == s.disabled[0] || s.offered[0] == s.disabled[1]), "C05 dbg");
+}
+extern "C" void h_dbg7()
+{
+    Sym s; makeSym(s);
+    QXmppConfiguration config;
+    applyConfig(config, s, false);
+    QList<QString> off;
+    for (unsigned k = 0; k < VP_NOFF; k++)
+        if (k < s.nOff) off.append(nameOf(k, s.offered[k]));
+    const auto disabled = config.disabledSaslMechanisms();
+    QStringList da;
+    auto isEnabled = [&](const QString &mechanism) {
+        if (disabled.contains(mechanism)) { da.push_back(mechanism); return false; }
+        return true; };
+    auto v = off | views::filter(isEnabled);
+    int c = 0; for (auto it = v.begin(); it != v.end(); ++it) c++;
+    vp_assert(c <= 3, "C05 dbg");
+}
+extern "C" void h_dbg1()
+{
+    QList<QString> l; l.append(QStringLiteral("a"));
+    int c = 0; for (const auto &x : l) c++;
+    vp_assert(c == 1, "C05 dbg");
+}
+extern "C" void h_dbg2()
+{
+    QXmppConfiguration config;
+    QList<QString> l; l.append(QStringLiteral("a"));
+    config.setDisabledSaslMechanisms(l);
+    auto d = config.disabledSaslMechanisms();
+    int c = 0; for (const auto &x : d) c++;
+    vp_assert(c == 1, "C05 dbg");
+}
+#endif
